@@ -189,6 +189,13 @@ def gen_scenario(seed: int, algos: Sequence[str], envs: Optional[Sequence[str]] 
         sc["mu"] = (np.round(np.array(sc["mu"]) * 4) / 4).tolist()
         sc["L"] = int(rng.choice([1, 2, 4, 8, 16]))
     sc["byz"] = False if valid_only else bool(rng.random() < 0.25 and sc["env"] in ("post_adv", "noise_adv"))
+    if valid_only and sc["env"] in ("real", "real_sim"):
+        # the hypothesis (truth inside every displayed region) is only likely to hold for real
+        # noise at the theoretical setting; keep noise small so that such runs also terminate
+        sc["contraction"] = 1.0
+        sc["noise_var"] = float(rng.choice([1e-4, 1e-3, 0.01]))
+        sc["eps"] = max(sc["eps"], 0.2)
+        sc["delta"] = min(sc["delta"], 0.1)
     if sc["env"] == "real_sim":
         base = math.sqrt(sc["noise_var"])
         sc["noise_sd"] = [float(base * f) for f in rng.choice([0.1, 0.3, 1.0, 1.0, 3.0, 6.0], size=K)]
